@@ -110,6 +110,10 @@ class Env:
     def elem(self, seq, i, old=None):
         """element i of a symbolic list as a value (fields of objects are read in the live state, or in the
         pre-state when `old` (the old namespace) is given)"""
+        if isinstance(seq, PyList):
+            c = ops.const_int(i)
+            v = seq.items[c]
+            return v.fwd if isinstance(v, Obj) and v.fwd is not None else v
         it = ops.term(i, 'int')
         v = self.ip.wrap(z3.Select(seq.arr, it), seq.elem)
         if old is not None and isinstance(v, SymObj):
